@@ -54,6 +54,10 @@ func batchSrc(prop string, cases [][]string, out *bufio.Writer) {
 }
 
 func runSrc(c []string, id int, tmp string) string {
+	if c[1] == "e2e" {
+		// <id> e2e <rdbhex> <cmdshex>: the whole start path (Sync) against the scripted source and fakeredis
+		return "e2e " + runSecrets([]string{c[0], "sync", "-", "-", "error", c[2], c[3]})
+	}
 	start, _ := strconv.ParseInt(c[2], 10, 64)
 	nrdb, _ := strconv.Atoi(c[3])
 	seedR, _ := strconv.Atoi(c[4])
